@@ -83,3 +83,36 @@ def prove_instances(pid, mod, ks, premise, theorem_apps, extra_imports=""):
     open(path, "w").write("\n".join(lines) + "\n")
     rc, out = coqc(path)
     return rc == 0, out
+
+
+def coq_values(name, imports, items, defs="", timeout=900):
+    """Evaluate arbitrary closed Coq expressions with vm_compute in one coqc run.
+    name: file stem under coq/generated; imports: text placed at the top (Require/Import lines);
+    defs: auxiliary definitions (text); items: list of (tag, coq_expression) with tags matching [A-Za-z0-9_]+.
+    Returns dict tag -> printed value (whitespace-normalised string, e.g. 'true', 'Some 3', '[1; 2]', '"abc"')."""
+    os.makedirs(GEN, exist_ok=True)
+    path = os.path.join(GEN, name + ".v")
+    lines = [imports, defs]
+    for tag, ex in items:
+        lines.append("Definition v_%s := Eval vm_compute in (%s)." % (tag, ex))
+        lines.append("Print v_%s." % tag)
+    open(path, "w").write("\n".join(lines) + "\n")
+    rc, out = coqc(path, timeout=timeout)
+    if rc != 0:
+        raise Infra("generated file %s rejected by coqc:\n%s" % (path, out[-3000:]))
+    res = {}
+    for m in re.finditer(r"v_(\w+) = (.*?)\n\s+: ", out, re.S):
+        res[m.group(1)] = " ".join(m.group(2).split())
+    missing = [t for t, _ in items if t not in res]
+    if missing:
+        raise Infra("missing results %s in coqc output:\n%s" % (missing[:5], out[-1500:]))
+    return res
+
+
+def coq_check_file(name, text, timeout=900):
+    """compile a generated Coq file that contains lemmas (kernel-checked obligations); returns (ok, output)"""
+    os.makedirs(GEN, exist_ok=True)
+    path = os.path.join(GEN, name + ".v")
+    open(path, "w").write(text)
+    rc, out = coqc(path, timeout=timeout)
+    return rc == 0, out
